@@ -432,6 +432,25 @@ func (c *Ctx) ruleRequiredArrays() {
 					}
 					return true
 				})
+				if len(others) == 1 && len(appends) == 0 && len(inits) == 0 {
+					// filled by one call of a helper of the library that accumulates its result: judged in the helper
+					if as, ok := others[0].(*ast.AssignStmt); ok && len(as.Rhs) == 1 {
+						if call, ok := ast.Unparen(as.Rhs[0]).(*ast.CallExpr); ok {
+							if h := c.fnOf(callee(pk, call)); h != nil {
+								if acc, good, at := accumulatedResult(h); acc {
+									n++
+									key := fmt.Sprintf("%s | %s", f.Name(), fld.Name())
+									if good {
+										r.Ok("C04-REQUIRED-ARRAY", key, "built by "+h.Name()+", whose result is initialised by make / a literal on every path to its return", c.pos(at))
+									} else {
+										r.Bad("C04-REQUIRED-ARRAY", key, "built by "+h.Name()+", whose result is accumulated by append only: when nothing is appended the required key is emitted as null instead of an empty array", c.pos(at))
+									}
+									continue
+								}
+							}
+						}
+					}
+				}
 				if len(others) > 0 || (len(appends) == 0 && len(inits) == 0) {
 					continue // filled from somewhere else: its nil-ness is that of the source (not decided here)
 				}
@@ -454,4 +473,102 @@ func (c *Ctx) ruleRequiredArrays() {
 	if n == 0 {
 		r.Undecided("C04-REQUIRED-ARRAY", "sites", "no accumulated required array found (Tag.interactionGroups used to match)", "")
 	}
+}
+
+
+// accumulatedResult: h returns one slice/map that it builds in a local variable by append onto itself
+// (acc); good says that an initialisation by make or a literal dominates every return of that variable.
+func accumulatedResult(h *Fn) (acc, good bool, at token.Pos) {
+	pk := h.Pkg
+	var rets []*ast.ReturnStmt
+	var v types.Object
+	single := true
+	ast.Inspect(h.Decl.Body, func(n ast.Node) bool {
+		if _, ok := n.(*ast.FuncLit); ok {
+			return false
+		}
+		if ret, ok := n.(*ast.ReturnStmt); ok {
+			if len(ret.Results) != 1 {
+				single = false
+				return true
+			}
+			id, ok := ast.Unparen(ret.Results[0]).(*ast.Ident)
+			if !ok {
+				single = false
+				return true
+			}
+			o := pk.TypesInfo.Uses[id]
+			if v != nil && o != v {
+				single = false
+			}
+			v = o
+			rets = append(rets, ret)
+		}
+		return true
+	})
+	if !single || v == nil || len(rets) == 0 {
+		return false, false, h.Decl.Pos()
+	}
+	var inits, appends []ast.Node
+	other := false
+	isV := func(e ast.Expr) bool {
+		id, ok := ast.Unparen(e).(*ast.Ident)
+		return ok && (pk.TypesInfo.Uses[id] == v || pk.TypesInfo.Defs[id] == v)
+	}
+	classify := func(at ast.Node, rhs ast.Expr) {
+		switch x := ast.Unparen(rhs).(type) {
+		case *ast.CompositeLit:
+			inits = append(inits, at)
+		case *ast.CallExpr:
+			if fid, ok := x.Fun.(*ast.Ident); ok && fid.Name == "make" {
+				inits = append(inits, at)
+			} else if ok && fid.Name == "append" && len(x.Args) > 0 && isV(x.Args[0]) {
+				appends = append(appends, at)
+			} else {
+				other = true
+			}
+		default:
+			other = true
+		}
+	}
+	ast.Inspect(h.Decl.Body, func(n ast.Node) bool {
+		switch x := n.(type) {
+		case *ast.AssignStmt:
+			for j, l := range x.Lhs {
+				if isV(l) && j < len(x.Rhs) && len(x.Lhs) == len(x.Rhs) {
+					classify(x, x.Rhs[j])
+				} else if isV(l) {
+					other = true
+				}
+			}
+		case *ast.ValueSpec:
+			for j, nm := range x.Names {
+				if pk.TypesInfo.Defs[nm] == v && j < len(x.Values) {
+					classify(x, x.Values[j])
+				}
+			}
+		}
+		return true
+	})
+	if other || len(appends) == 0 {
+		return false, false, h.Decl.Pos()
+	}
+	cf := buildCFG(h.Decl.Body)
+	good = true
+	for _, ret := range rets {
+		dom := false
+		for _, in := range inits {
+			if cf.dominatedBy(ret, in) {
+				dom = true
+			}
+		}
+		if !dom {
+			good = false
+			at = ret.Pos()
+		}
+	}
+	if at == token.NoPos {
+		at = rets[0].Pos()
+	}
+	return true, good, at
 }
